@@ -148,6 +148,14 @@ type Sampler struct {
 	IC    bool
 	caps  map[int][]rune
 	Class func(n *Node, r rune) bool // membership oracle, optional
+	Limit int                        // longest text emitted (0 = 160)
+}
+
+func (s *Sampler) limit() int {
+	if s.Limit > 0 {
+		return s.Limit
+	}
+	return 160
 }
 
 func (s *Sampler) pickClass(n *Node) rune {
@@ -166,7 +174,7 @@ func (s *Sampler) pickClass(n *Node) rune {
 }
 
 func (s *Sampler) emit(n *Node, out []rune) []rune {
-	if len(out) > 160 {
+	if len(out) > s.limit() {
 		return out // nested repeats and back-references multiply; inputs are capped anyway
 	}
 	switch n.K {
@@ -268,8 +276,8 @@ func (s *Sampler) Directed(root *Node, extra []rune) []rune {
 			out = out[:i]
 		}
 	}
-	if len(out) > 130 {
-		out = out[:130]
+	if mx := s.limit() - 30; len(out) > mx {
+		out = out[:mx]
 	}
 	return out
 }
